@@ -4,6 +4,7 @@ import datetime
 import math
 import os
 import random
+import zipfile
 import re
 
 from .. import model, runner
@@ -421,8 +422,16 @@ def run_job(job):
             ("length(trim(name))", lambda n, st: str(len(n.strip(" \t")))),
             ("sqrt(size)", lambda n, st: ("num", math.sqrt(st.st_size))), ("abs(size - 1000)", lambda n, st: ("num", abs(st.st_size - 1000.0))),
         ]
+        # zip members are entries too: a function of `name` is applied to the member's name column as printed
+        MEMBER_OK = {"lower(name)", "length(name)", "upper(name)", "substr(name, 2, 2)", "replace(name, 'a', 'A')", "to_base64(name)",
+                     "from_base64(to_base64(name))", "length(trim(name))"}
+        with zipfile.ZipFile(os.path.join(nd, "pack.zip"), "w") as z:
+            for t in rng.sample([x for x in TEXTS if "\t" not in x], 3):
+                z.writestr(t, b"m")
+        names.append("pack.zip")
         for expr, ref in rng.sample(colcases, job["colcases"]):
-            qy = "name, %s from n into list" % expr
+            with_members = expr in MEMBER_OK and rng.random() < 0.5
+            qy = "name, %s from n%s into list" % (expr, " archives" if with_members else "")
             r = runner.run([qy], cwd=w, home=home, tz=ctz)
             res.ev()
             ctx = {"query": qy, "result": r.brief()}
@@ -434,7 +443,11 @@ def run_job(job):
                 continue
             ok = True
             for nm, cell in r.rows(2):
-                st = os.lstat(os.path.join(nd, nm))
+                if nm.startswith("[pack.zip] "):
+                    st = None
+                    res.count("functions_on_member_names")
+                else:
+                    st = os.lstat(os.path.join(nd, nm))
                 want = ref(nm, st)
                 if want is None:
                     continue
@@ -457,9 +470,11 @@ def run_job(job):
                 for nm, cell in r.rows(2):
                     shown.setdefault(cell, []).append(nm)
                 val = rng.choice(sorted(shown))
-                if val != "" and not val.startswith("-") and not isinstance(ref(shown[val][0], os.lstat(os.path.join(nd, shown[val][0]))), tuple):
+                first = shown[val][0]
+                if val != "" and not val.startswith("-") and not isinstance(
+                        ref(first, None if first.startswith("[pack.zip] ") else os.lstat(os.path.join(nd, first))), tuple):
                     try:
-                        qw = "name from n where %s === %s into list" % (expr, q(val))
+                        qw = "name from n%s where %s === %s into list" % (" archives" if with_members else "", expr, q(val))
                     except ValueError:
                         continue
                     rw = runner.run([qw], cwd=w, home=home, tz=ctz)
